@@ -23,6 +23,9 @@ type Msg struct {
 	Bits  []uint64 `json:"bits,omitempty"`
 	Times []uint32 `json:"times,omitempty"`
 	Dur   int32    `json:"dur,omitempty"`
+	// Tail (series): until = from + n*step + Tail with 0 <= Tail < step - a range that is not a whole number of
+	// steps (NewTimeSeries is public and takes any bounds; the value count is floor(range / step))
+	Tail int32 `json:"tail,omitempty"`
 }
 
 type C14Case struct {
@@ -56,7 +59,7 @@ func (m Msg) build() (codec, func() codec, error) {
 		for i, b := range m.Bits {
 			vals[i] = wt.Value(math.Float64frombits(b))
 		}
-		until := wt.Timestamp(m.From).Add(wt.Duration(int64(len(vals)) * int64(m.Step)))
+		until := wt.Timestamp(m.From).Add(wt.Duration(int64(len(vals))*int64(m.Step) + int64(m.Tail)))
 		return wt.NewTimeSeries(wt.Timestamp(m.From), until, wt.Duration(m.Step), vals), func() codec { return &wt.TimeSeries{} }, nil
 	case "points":
 		ps := make(wt.Points, len(m.Bits))
@@ -299,6 +302,17 @@ func runC14(c C14Case, ev *Evid) (fs []Finding) {
 					add("prefix-wanted-size", "%s: %d-byte prefix of %d-byte encoding: wanted size %d not in (%d, %d]", first.m.Kind, have, n, w.WantedBufSize, have, n)
 					return
 				}
+				// another decoder answering another short read in between (a second connection, another file)
+				// must not change THIS answer
+				asked := w.WantedBufSize
+				var otherHdr wt.Header
+				var otherTS wt.Timestamp
+				guard(func() { otherHdr.TakeFrom(make([]byte, 20)) })
+				guard(func() { otherTS.TakeFrom(nil) })
+				if w.WantedBufSize != asked {
+					add("prefix-wanted-size", "%s: %d-byte prefix of %d-byte encoding: the decoder asked for %d bytes, but after two other decoders had answered short reads of their own the same error object asks for %d", first.m.Kind, have, n, asked, w.WantedBufSize)
+					return
+				}
 				have = w.WantedBufSize
 				steps++
 				if steps > 3 {
@@ -376,6 +390,13 @@ func genMsg(t *rapid.T, kinds []string) Msg {
 			n /= 2
 		}
 		span := int64(n) * int64(m.Step)
+		if m.Step > 1 && rapid.IntRange(0, 4).Draw(t, "unalignedRange") == 0 {
+			m.Tail = rapid.Int32Range(1, m.Step-1).Draw(t, "tail")
+			if span+int64(m.Tail) > math.MaxUint32 {
+				m.Tail = 0
+			}
+			span += int64(m.Tail)
+		}
 		m.From = uint32(rapid.Int64Range(0, math.MaxUint32-span).Draw(t, "from"))
 		for i := 0; i < n; i++ {
 			m.Bits = append(m.Bits, genBits(t))
